@@ -152,14 +152,17 @@ def _abs_time(date, tm):
 
 
 def _join_case(args):
-    spec, seed, scratch = args
+    spec, seed, scratch = args[:3]
+    tiny = args[3] if len(args) > 3 else False
     """spec: list of (time key, missing features tuple, n events)"""
     from dclab import cli
+    import contextlib
     d = _mkdir(scratch, "j")
     out = []
     case = {"kind": "join", "spec": [list(map(
         lambda x: list(x) if isinstance(x, tuple) else x, s)) for s in spec],
-        "seed": seed}
+        "seed": seed, "tiny_chunks": tiny}
+    chunks = gen.chunk_bytes(100) if tiny else contextlib.nullcontext()
     W = "dclab.cli.task_join:join"
     miss_any = sorted({m for s in spec for m in s[1]})
     tags = {"k": len(spec),
@@ -184,7 +187,8 @@ def _join_case(args):
             paths.append(p)
             evs.append(ev)
         outp = d / "joined.rtdc"
-        cli.join(paths_in=paths, path_out=outp)
+        with chunks:
+            cli.join(paths_in=paths, path_out=outp)
         # chronological order, ties in the given order
         order = sorted(range(len(spec)),
                        key=lambda j: _abs_time(*TIMES[spec[j][0]]))
@@ -270,11 +274,17 @@ def _join_case(args):
 
 
 def _roundtrip_case(args):
-    n, size, seed, scratch = args
+    n, size, seed, scratch = args[:4]
+    tiny = args[4] if len(args) > 4 else False
     from dclab import cli
+    import contextlib
     d = _mkdir(scratch, f"r{n}_{size}")
     out = []
-    case = {"kind": "roundtrip", "n": n, "size": size, "seed": seed}
+    case = {"kind": "roundtrip", "n": n, "size": size, "seed": seed,
+            "tiny_chunks": tiny}
+    # tiny chunks: two images per HDF5 chunk, so that the appends of join
+    # start inside a chunk and run across chunk boundaries
+    chunks = gen.chunk_bytes(100) if tiny else contextlib.nullcontext()
     W = "dclab.cli.task_join:join"
     try:
         ev = gen.make_events(n, seed=seed, feats=FEATS)
@@ -284,7 +294,8 @@ def _roundtrip_case(args):
                           ret_out_paths=True)
         if len(parts) >= 2:
             outp = d / "joined.rtdc"
-            cli.join(paths_in=parts, path_out=outp)
+            with chunks:
+                cli.join(paths_in=parts, path_out=outp)
             r = read_all(outp, FEATS)
             for f in FEATS:
                 if f in ("index_online",):
@@ -353,10 +364,13 @@ def run(ctx):
                 sitems.append((n, size, True, True, True, ctx.seed, scratch))
                 sitems.append((n, size, True, True, False, ctx.seed,
                                scratch))
-    jitems = [(s, ctx.seed, scratch) for s in join_specs(ctx)]
-    ritems = [(n, size, ctx.seed, scratch)
+    # chunk configuration: alternating (quick) / both (thorough)
+    jitems = [(s, ctx.seed, scratch, bool(t))
+              for i, s in enumerate(join_specs(ctx))
+              for t in ((i % 2,) if ctx.quick else (0, 1))]
+    ritems = [(n, size, ctx.seed, scratch, t)
               for n in ((5, 8) if ctx.quick else (5, 8, 12))
-              for size in range(1, n)]
+              for size in range(1, n) for t in (False, True)]
     viols = []
     for vs in par.pmap(_split_case, sitems):
         viols.extend(vs)
@@ -378,7 +392,8 @@ def run(ctx):
                    "pairs, all pairs of 5 acquisition times (fractional "
                    "seconds, date change, ties), k=3 all 6 orders x 27 "
                    "missing-subset assignments (thorough: k=4,5); roundtrip "
-                   "split+join; non-trivial = size strictly between 1 and N "
+                   "split+join; join runs with the default and with a tiny "
+                   "HDF5 chunk size (2 images per chunk); non-trivial = size strictly between 1 and N "
                    "/ differing times or feature sets",
            "samples": [{"split": [sitems[5][0], sitems[5][1]]},
                        {"join": jitems[len(jitems) // 2][0]},
@@ -399,6 +414,7 @@ def replay(case, ctx):
                             ctx.scratch))
     if case["kind"] == "roundtrip":
         return _roundtrip_case((case["n"], case["size"], case["seed"],
-                                ctx.scratch))
+                                ctx.scratch, case.get("tiny_chunks", False)))
     spec = [(s[0], tuple(s[1]), s[2]) for s in case["spec"]]
-    return _join_case((spec, case["seed"], ctx.scratch))
+    return _join_case((spec, case["seed"], ctx.scratch,
+                       case.get("tiny_chunks", False)))
